@@ -3,6 +3,7 @@ CONSTANTS MaxReq = 4
           Grants <- GrantsSmall
           MaxLeases = 2
           MaxClock = 4
+          MaxReconnects = 0
           AppActsOnHeld = FALSE
           QSize = 0
 INVARIANT TypeOK
